@@ -411,3 +411,268 @@ Proof.
            rewrite assoc_aset_other by exact (not_eq_sym Hne). apply assoc_aset_same.
         -- intros x0 d0 E. rewrite Hg2 in E. inversion E; subst. apply assoc_aset_same.
 Qed.
+
+From Coq Require Import Arith Lia.
+(* ------------------------------------------------------------------ sharing inside the exported state *)
+Local Open Scope nat_scope.
+Lemma assoc_kdel_same {V} k (d : list (pystr * V)) : assoc k (kdel k d) = None.
+Proof.
+  induction d as [|[k' v] r IH]; cbn; [reflexivity|].
+  destruct (str_eqb k k') eqn:E; cbn; [exact IH|]. rewrite E. exact IH.
+Qed.
+Lemma assoc_kdel_other {V} k k' (d : list (pystr * V)) : k <> k' -> assoc k' (kdel k d) = assoc k' d.
+Proof.
+  intros Hne. induction d as [|[k2 v] r IH]; cbn; [reflexivity|].
+  destruct (str_eqb k k2) eqn:E; cbn.
+  - apply str_eqb_eq in E. subst k2.
+    assert (str_eqb k' k = false) as -> by (apply str_eqb_neq; congruence). exact IH.
+  - destruct (str_eqb k' k2); [reflexivity|exact IH].
+Qed.
+
+Lemma str_eqb_false_ne a b : str_eqb a b = false -> a <> b.
+Proof. apply str_eqb_neq. Qed.
+
+(* one step, seen through the keys of K only: a plain key -> contents map *)
+Definition vstep (m : pystr -> option pyval) (o : sop) : (pystr -> option pyval) * option pyval :=
+  match o with
+  | SGet k => (m, m k)
+  | SUpd k v => (fun k' => if str_eqb k' k then match m k with Some _ => Some v | None => None end else m k', None)
+  | SFile _ _ => (m, None)
+  | SNew k v => (fun k' => if str_eqb k' k then Some v else m k', None)
+  | SDel k => (fun k' => if str_eqb k' k then None else m k', None)
+  end.
+
+Lemma vstep_ext K m1 m2 o :
+  (forall k, K k = true -> m1 k = m2 k) -> op_canon K o = true ->
+  snd (vstep m1 o) = snd (vstep m2 o) /\ (forall k, K k = true -> fst (vstep m1 o) k = fst (vstep m2 o) k).
+Proof.
+  intros H Ho. destruct o as [k v|k|k k2|k v|k]; cbn in *.
+  - split; [reflexivity|]. intros k' Hk'. rewrite (H k Ho), (H k' Hk'). reflexivity.
+  - split; [apply H; exact Ho|]. intros; now apply H.
+  - split; [reflexivity|]. intros; now apply H.
+  - split; [reflexivity|]. intros k' Hk'. now rewrite (H k' Hk').
+  - split; [reflexivity|]. intros k' Hk'. now rewrite (H k' Hk').
+Qed.
+
+Lemma deref_cons_same s l v ks n :
+  sd_deref {| sd_keys := ks; sd_heap := (l, v) :: sd_heap s; sd_next := n |} l = v.
+Proof. unfold sd_deref. cbn. now rewrite Nat.eqb_refl. Qed.
+Lemma deref_cons_other s l l' v ks n : l' <> l ->
+  sd_deref {| sd_keys := ks; sd_heap := (l, v) :: sd_heap s; sd_next := n |} l' = sd_deref s l'.
+Proof. intros H. unfold sd_deref. cbn. apply Nat.eqb_neq in H. now rewrite H. Qed.
+
+Lemma step_abs K s o : sd_canon K s -> op_canon K o = true ->
+  snd (sd_step s o) = snd (vstep (sd_view s) o)
+  /\ (forall k, K k = true -> sd_view (fst (sd_step s o)) k = fst (vstep (sd_view s) o) k)
+  /\ sd_canon K (fst (sd_step s o)).
+Proof.
+  intros [C1 C2] Ho. destruct o as [k v|k|k k2|k v|k]; cbn [op_canon] in Ho.
+  - (* SUpd *)
+    cbn [sd_step vstep]. unfold sd_view, sd_loc in *. destruct (assoc k (sd_keys s)) as [l|] eqn:L; cbn [fst snd sd_keys].
+    + split; [reflexivity|]. split.
+      * intros k' Hk'. destruct (str_eqb k' k) eqn:E.
+        -- apply str_eqb_eq in E. subst k'. rewrite L. cbn [option_map]. now rewrite deref_cons_same.
+        -- destruct (assoc k' (sd_keys s)) as [l'|] eqn:L'; cbn [option_map]; [|reflexivity].
+           rewrite deref_cons_other; [reflexivity|]. intros ->.
+           apply str_eqb_false_ne in E. apply E. eapply C1; eauto.
+      * split; [exact C1|exact C2].
+    + split; [reflexivity|]. split; [|split; assumption].
+      intros k' Hk'. destruct (str_eqb k' k) eqn:E; [|reflexivity].
+      apply str_eqb_eq in E. subst k'. rewrite L. reflexivity.
+  - (* SGet *) cbn. split; [reflexivity|]. split; [reflexivity|]. split; assumption.
+  - (* SFile *)
+    apply andb_true_iff in Ho as [Hk Hk2]. apply negb_true_iff in Hk2.
+    cbn [sd_step vstep]. destruct (sd_loc s k) as [l|] eqn:L; cbn [fst snd]; [|repeat split; auto].
+    assert (forall k', K k' = true -> sd_loc {| sd_keys := aset k2 l (sd_keys s); sd_heap := sd_heap s; sd_next := sd_next s |} k' = sd_loc s k') as Hloc.
+    { intros k' Hk'. unfold sd_loc. cbn [sd_keys]. apply assoc_aset_other. intros ->. congruence. }
+    split; [reflexivity|]. split.
+    + intros k' Hk'. unfold sd_view. rewrite (Hloc k' Hk'). reflexivity.
+    + split.
+      * intros k1 k3 l0 H1 H3. rewrite (Hloc k1 H1), (Hloc k3 H3). apply C1; assumption.
+      * intros k0 l0. unfold sd_loc. cbn [sd_keys sd_next]. destruct (str_eqb k2 k0) eqn:E.
+        -- apply str_eqb_eq in E. subst k0. rewrite assoc_aset_same. intros [= <-]. eapply C2; eauto.
+        -- rewrite assoc_aset_other by (now apply str_eqb_false_ne). apply C2.
+  - (* SNew *)
+    cbn [sd_step vstep fst snd]. split; [reflexivity|].
+    assert (forall k', k' <> k -> sd_loc {| sd_keys := aset k (sd_next s) (sd_keys s); sd_heap := (sd_next s, v) :: sd_heap s; sd_next := S (sd_next s) |} k' = sd_loc s k') as Hloc.
+    { intros k' Hne. unfold sd_loc. cbn [sd_keys]. apply assoc_aset_other. congruence. }
+    assert (sd_loc {| sd_keys := aset k (sd_next s) (sd_keys s); sd_heap := (sd_next s, v) :: sd_heap s; sd_next := S (sd_next s) |} k = Some (sd_next s)) as Hk.
+    { unfold sd_loc. cbn [sd_keys]. apply assoc_aset_same. }
+    split.
+    + intros k' Hk'. destruct (str_eqb k' k) eqn:E.
+      * apply str_eqb_eq in E. subst k'. unfold sd_view. rewrite Hk. cbn [option_map]. now rewrite deref_cons_same.
+      * apply str_eqb_false_ne in E. unfold sd_view. rewrite (Hloc k' E).
+        destruct (sd_loc s k') as [l'|] eqn:L'; cbn [option_map]; [|reflexivity].
+        rewrite deref_cons_other; [reflexivity|]. apply C2 in L'. lia.
+    + split.
+      * intros k1 k3 l0 H1 H3 L1 L3.
+        destruct (str_eqb k1 k) eqn:E1; destruct (str_eqb k3 k) eqn:E3.
+        -- apply str_eqb_eq in E1, E3. congruence.
+        -- apply str_eqb_eq in E1. subst k1. apply str_eqb_false_ne in E3. rewrite Hk in L1. injection L1 as <-.
+           rewrite (Hloc k3 E3) in L3. apply C2 in L3. lia.
+        -- apply str_eqb_eq in E3. subst k3. apply str_eqb_false_ne in E1. rewrite Hk in L3. injection L3 as <-.
+           rewrite (Hloc k1 E1) in L1. apply C2 in L1. lia.
+        -- apply str_eqb_false_ne in E1, E3. rewrite (Hloc k1 E1) in L1. rewrite (Hloc k3 E3) in L3. eapply C1; eauto.
+      * intros k0 l0 L0. cbn [sd_next]. destruct (str_eqb k0 k) eqn:E.
+        -- apply str_eqb_eq in E. subst k0. rewrite Hk in L0. injection L0 as <-. lia.
+        -- apply str_eqb_false_ne in E. rewrite (Hloc k0 E) in L0. apply C2 in L0. lia.
+  - (* SDel *)
+    cbn [sd_step vstep fst snd]. split; [reflexivity|].
+    assert (forall k', k' <> k -> sd_loc {| sd_keys := kdel k (sd_keys s); sd_heap := sd_heap s; sd_next := sd_next s |} k' = sd_loc s k') as Hloc.
+    { intros k' Hne. unfold sd_loc. cbn [sd_keys]. apply assoc_kdel_other. congruence. }
+    assert (sd_loc {| sd_keys := kdel k (sd_keys s); sd_heap := sd_heap s; sd_next := sd_next s |} k = None) as Hk.
+    { unfold sd_loc. cbn [sd_keys]. apply assoc_kdel_same. }
+    split.
+    + intros k' Hk'. destruct (str_eqb k' k) eqn:E.
+      * apply str_eqb_eq in E. subst k'. unfold sd_view. rewrite Hk. reflexivity.
+      * apply str_eqb_false_ne in E. unfold sd_view. rewrite (Hloc k' E). reflexivity.
+    + split.
+      * intros k1 k3 l0 H1 H3 L1 L3.
+        destruct (str_eqb k1 k) eqn:E1; [apply str_eqb_eq in E1; subst k1; rewrite Hk in L1; discriminate|].
+        destruct (str_eqb k3 k) eqn:E3; [apply str_eqb_eq in E3; subst k3; rewrite Hk in L3; discriminate|].
+        apply str_eqb_false_ne in E1, E3. rewrite (Hloc k1 E1) in L1. rewrite (Hloc k3 E3) in L3. eapply C1; eauto.
+      * intros k0 l0 L0. cbn [sd_next]. destruct (str_eqb k0 k) eqn:E.
+        -- apply str_eqb_eq in E. subst k0. rewrite Hk in L0. discriminate.
+        -- apply str_eqb_false_ne in E. rewrite (Hloc k0 E) in L0. eapply C2; eauto.
+Qed.
+
+(* two databases that show the same contents under every key of K answer every sequence of operations on K alike *)
+Lemma run_agree K ops : forall s t,
+  sd_canon K s -> sd_canon K t -> (forall k, K k = true -> sd_view s k = sd_view t k) ->
+  forallb (op_canon K) ops = true -> sd_run s ops = sd_run t ops.
+Proof.
+  induction ops as [|o r IH]; intros s t Cs Ct Hv Ho; [reflexivity|].
+  cbn [forallb] in Ho. apply andb_true_iff in Ho as [Ho Hr].
+  cbn [sd_run].
+  destruct (step_abs K s o Cs Ho) as (Xs & Vs & Cs').
+  destruct (step_abs K t o Ct Ho) as (Xt & Vt & Ct').
+  destruct (vstep_ext K _ _ o Hv Ho) as [Ex Ev].
+  destruct (sd_step s o) as [s' x]. destruct (sd_step t o) as [t' y]. cbn [fst snd] in *.
+  f_equal; [congruence|].
+  apply IH; auto. intros k Hk. rewrite (Vs k Hk), (Vt k Hk). now apply Ev.
+Qed.
+
+(* ---- dump / load ---- *)
+Lemma assoc_dump s k : assoc k (sd_dump s) = sd_view s k.
+Proof.
+  unfold sd_dump, sd_view, sd_loc. induction (sd_keys s) as [|[k' l] r IH]; cbn; [reflexivity|].
+  destruct (str_eqb k k'); [reflexivity|exact IH].
+Qed.
+
+Lemma load_loc_ge d : forall n k l, sd_loc (sd_load_from n d) k = Some l -> n <= l < sd_next (sd_load_from n d).
+Proof.
+  induction d as [|[k0 v] r IH]; intros n k l; unfold sd_loc; cbn; [discriminate|].
+  assert (S n <= sd_next (sd_load_from (S n) r)) as Hn.
+  { clear. revert n. induction r as [|[k v] r IH]; intros n; cbn; [lia|]. specialize (IH (S n)). lia. }
+  destruct (str_eqb k k0).
+  - intros [= <-]. lia.
+  - intros H. apply (IH (S n)) in H. lia.
+Qed.
+
+Lemma load_view d : forall n k, sd_view (sd_load_from n d) k = assoc k d.
+Proof.
+  induction d as [|[k0 v] r IH]; intros n k; [reflexivity|].
+  unfold sd_view, sd_loc. cbn [sd_load_from sd_keys assoc].
+  destruct (str_eqb k k0) eqn:E.
+  - cbn [option_map]. unfold sd_deref. cbn. now rewrite Nat.eqb_refl.
+  - rewrite <- (IH (S n) k). unfold sd_view, sd_loc.
+    destruct (assoc k (sd_keys (sd_load_from (S n) r))) as [l|] eqn:L; cbn [option_map]; [|reflexivity].
+    f_equal. unfold sd_deref. cbn [sd_heap nassoc].
+    apply (load_loc_ge r (S n) k l) in L. assert (Nat.eqb l n = false) as -> by (apply Nat.eqb_neq; lia). reflexivity.
+Qed.
+
+(* what load builds never files one object under two keys ... *)
+Lemma load_separate d : forall n k1 k2 l,
+  sd_loc (sd_load_from n d) k1 = Some l -> sd_loc (sd_load_from n d) k2 = Some l -> k1 = k2.
+Proof.
+  induction d as [|[k0 v] r IH]; intros n k1 k2 l; unfold sd_loc; cbn [sd_load_from sd_keys assoc]; [discriminate|].
+  destruct (str_eqb k1 k0) eqn:E1; destruct (str_eqb k2 k0) eqn:E2.
+  - apply str_eqb_eq in E1, E2. congruence.
+  - intros [= <-] H. apply (load_loc_ge r (S n)) in H. lia.
+  - intros H [= <-]. apply (load_loc_ge r (S n)) in H. lia.
+  - apply (IH (S n)).
+Qed.
+
+Lemma load_canon K d : sd_canon K (sd_load d).
+Proof.
+  split.
+  - intros k1 k2 l _ _. apply load_separate.
+  - intros k l H. unfold sd_load in *. apply (load_loc_ge d 0) in H. lia.
+Qed.
+
+Lemma restore_views s k : sd_view (sd_load (sd_dump s)) k = sd_view s k.
+Proof. unfold sd_load. rewrite load_view. apply assoc_dump. Qed.
+
+(* ... so every sharing relation of the original is lost by export -> import *)
+Lemma restore_loses_alias s k1 k2 : k1 <> k2 -> same_object (sd_load (sd_dump s)) k1 k2 = false.
+Proof.
+  intros Hne. unfold same_object.
+  destruct (sd_loc (sd_load (sd_dump s)) k1) as [a|] eqn:L1; [|reflexivity].
+  destruct (sd_loc (sd_load (sd_dump s)) k2) as [b|] eqn:L2; [|reflexivity].
+  apply Nat.eqb_neq. intros ->. apply Hne. eapply load_separate; eauto.
+Qed.
+
+(* the restored database answers every later sequence of operations that goes through the keys of K as the original
+   does - although the objects filed a second time are separate copies now *)
+Lemma restore_equivalent_on_canonical_keys K s ops :
+  sd_canon K s -> forallb (op_canon K) ops = true -> sd_run (sd_load (sd_dump s)) ops = sd_run s ops.
+Proof.
+  intros Cs Ho. apply (run_agree K); auto.
+  - apply load_canon.
+  - intros k _. apply restore_views.
+Qed.
+
+(* the condition is needed: a reader that goes through the second filing sees the copy taken at export time *)
+Definition ex_tree : pystr := [100; 59; 59; 99; 59; 59; 103]%N.     (* "d;;c;;g" *)
+Definition ex_sid : pystr := [90; 48; 70; 66]%N.                    (* "Z0FB": the encrypted session id *)
+Definition ex_sdb : sdb := {| sd_keys := [(ex_tree, O); (ex_sid, O)]; sd_heap := [(O, VBool false)]; sd_next := 1 |}.
+Lemma restore_not_equivalent_through_second_filing :
+  same_object ex_sdb ex_tree ex_sid = true
+  /\ sd_run ex_sdb [SUpd ex_tree (VBool true); SGet ex_sid] = [None; Some (VBool true)]
+  /\ sd_run (sd_load (sd_dump ex_sdb)) [SUpd ex_tree (VBool true); SGet ex_sid] = [None; Some (VBool false)].
+Proof. repeat split; vm_compute; reflexivity. Qed.
+
+(* the same for the databases the operations lead to *)
+Lemma exec_agree K ops : forall s t,
+  sd_canon K s -> sd_canon K t -> (forall k, K k = true -> sd_view s k = sd_view t k) ->
+  forallb (op_canon K) ops = true ->
+  sd_canon K (sd_exec s ops) /\ sd_canon K (sd_exec t ops)
+  /\ (forall k, K k = true -> sd_view (sd_exec s ops) k = sd_view (sd_exec t ops) k).
+Proof.
+  induction ops as [|o r IH]; intros s t Cs Ct Hv Ho; cbn [sd_exec]; [auto|].
+  cbn [forallb] in Ho. apply andb_true_iff in Ho as [Ho Hr].
+  destruct (step_abs K s o Cs Ho) as (_ & Vs & Cs'). destruct (step_abs K t o Ct Ho) as (_ & Vt & Ct').
+  destruct (vstep_ext K _ _ o Hv Ho) as [_ Ev].
+  apply IH; auto. intros k Hk'. rewrite (Vs k Hk'), (Vt k Hk'). now apply Ev.
+Qed.
+
+(* look-ups by session id: through the tree, the original and the restored database agree after any later history on K;
+   a look-up that prefers the entry filed under the id does not (same witness) *)
+Lemma lookup_tree_restored K s ops sidkey treekey :
+  sd_canon K s -> forallb (op_canon K) ops = true -> K treekey = true ->
+  sd_lookup true (sd_exec (sd_load (sd_dump s)) ops) sidkey treekey = sd_lookup true (sd_exec s ops) sidkey treekey.
+Proof.
+  intros Cs Ho Hk. cbn [sd_lookup].
+  destruct (exec_agree K ops (sd_load (sd_dump s)) s) as (_ & _ & G); auto.
+  - apply load_canon.
+  - intros k _. apply restore_views.
+Qed.
+
+(* chains: export -> import -> operations -> export -> import -> operations *)
+Lemma restore_chain_equivalent K s ops1 ops2 :
+  sd_canon K s -> forallb (op_canon K) ops1 = true -> forallb (op_canon K) ops2 = true ->
+  sd_run (sd_load (sd_dump (sd_exec (sd_load (sd_dump s)) ops1))) ops2 = sd_run (sd_exec s ops1) ops2.
+Proof.
+  intros Cs H1 H2.
+  destruct (exec_agree K ops1 (sd_load (sd_dump s)) s) as (Ct & Cs1 & G); auto.
+  - apply load_canon.
+  - intros k _. apply restore_views.
+  - apply (run_agree K); auto.
+    + apply load_canon.
+    + intros k Hk. rewrite restore_views. now apply G.
+Qed.
+
+Lemma lookup_by_second_filing_refuted :
+  sd_lookup false (sd_exec ex_sdb [SUpd ex_tree (VBool true)]) ex_sid ex_tree = Some (VBool true)
+  /\ sd_lookup false (sd_exec (sd_load (sd_dump ex_sdb)) [SUpd ex_tree (VBool true)]) ex_sid ex_tree = Some (VBool false).
+Proof. split; vm_compute; reflexivity. Qed.
